@@ -101,20 +101,26 @@ def _open_findings(prop):
 
 
 def known_family(case, m, prop=None):
-    """Id of the listed open finding whose input predicate this case
+    """Id of a listed open finding whose input predicate this case
     satisfies, or None.  Computed from the definition and the drawn job set
     only - never from what the tool produced.  With `prop`, only findings
-    that known_findings.json lists for that property count."""
-    fam = _family(case, m)
-    if fam and fam.endswith("#loop-clause"):
-        # clause (b) of F-P only counts for the properties for which a
-        # violating replay of that clause is listed
-        fam = fam.split("#")[0]
-        if prop is not None and prop not in _clause_b_properties():
-            return None
-    if fam and prop is not None and fam not in _open_findings(prop):
-        return None
-    return fam
+    that known_findings.json lists for that property count (a case may
+    satisfy several predicates; the first one listed for `prop` is named)."""
+    for fam in _families_of(case, m):
+        if fam.endswith("#loop-clause"):
+            # clause (b) of F-P only counts for the properties for which a
+            # violating replay of that clause is listed
+            fam = fam.split("#")[0]
+            if prop is not None and prop not in _clause_b_properties():
+                continue
+        if prop is None or fam in _open_findings(prop):
+            return fam
+    return None
+
+
+def _family(case, m):
+    fams = _families_of(case, m)
+    return fams[0] if fams else None
 
 
 def _clause_b_properties():
@@ -127,13 +133,14 @@ def _clause_b_properties():
     return _open_cache["clause_b"]
 
 
-def _family(case, m):
+def _families_of(case, m):
+    out = []
     if os.path.basename(case.get("corpus", "")) == \
             "kill_with_merge_on_parent.puml":
-        return "PV-F-D-kill-with-merge-on-parent"
+        out.append("PV-F-D-kill-with-merge-on-parent")
     if os.path.basename(case.get("corpus", "")) == \
             "loop_with_2_breaks_one_leads_to_other_equiv.puml":
-        return "PV-F-G-corpus-break-target-shared-with-loop-exit"
+        out.append("PV-F-G-corpus-break-target-shared-with-loop-exit")
     f = m.features
     # the loop families need the loop to be *observed*: if no job repeats an
     # event type the directly-follows graph of a definition with distinct
@@ -141,22 +148,26 @@ def _family(case, m):
     if not any(len({t for t, _ in j}) < len(j) for j in m.jobs):
         f = tuple(x for x in f if x not in (
             "break_multi_loop_last", "break_loop_tail_of_loop",
-            "break_loop_tail_of_fork_ending_loop"))
+            "break_loop_tail_of_fork_ending_loop",
+            "empty_break_beside_break"))
     if "break_multi_loop_last" in f:
-        return "PV-F-B-trailing-loop-multi-event-break"
+        out.append("PV-F-B-trailing-loop-multi-event-break")
     if "empty_break_loop_last" in f:
-        return "PV-F-B0-trailing-loop-empty-break"
+        out.append("PV-F-B0-trailing-loop-empty-break")
+    if "empty_break_beside_break" in f:
+        out.append("PV-F-H-empty-break-beside-another-break")
     if "break_loop_tail_of_loop" in f:
-        return "PV-F-C-break-loop-at-tail-of-loop-body"
+        out.append("PV-F-C-break-loop-at-tail-of-loop-body")
     if "break_loop_tail_of_fork_ending_loop" in f:
-        return "PV-F-C2-break-loop-ends-fork-branch-ending-loop-body"
+        out.append("PV-F-C2-break-loop-ends-fork-branch-ending-loop-body")
     if not m.complete and not m.too_large:
         if partial_fork_or_join(m.all_jobs, m.jobs):
-            return "PV-F-P-subset-shows-fork-join-or-loop-partly"
-        if partial_fork_or_join(m.all_jobs, m.jobs,
-                                loop_event_names(m.ast)):
-            return "PV-F-P-subset-shows-fork-join-or-loop-partly#loop-clause"
-    return None
+            out.append("PV-F-P-subset-shows-fork-join-or-loop-partly")
+        elif partial_fork_or_join(m.all_jobs, m.jobs,
+                                  loop_event_names(m.ast)):
+            out.append("PV-F-P-subset-shows-fork-join-or-loop-partly"
+                       "#loop-clause")
+    return out
 
 
 def _families(jobs):
@@ -298,3 +309,13 @@ def case_classes(case, m):
     cl.append("complete" if m.complete else "subset")
     cl.append("corpus" if "corpus" in case else "generated")
     return cl
+
+
+def loop_shape_cases(seed, shard, nshards, k=2):
+    """The exhaustive loop/break family of gen.loop_shapes() as cases
+    (complete sets), the slice of one shard."""
+    for i, (tag, ast) in enumerate(gen.loop_shapes()):
+        if i % nshards != shard:
+            continue
+        yield tag, {"defn": ps.to_json(ast), "k": k, "pick": None,
+                    "sched": seed * 1000 + i}
